@@ -3,18 +3,24 @@ package main
 // Scalar replacement of local struct variables (a step of the helper normalisation, inline.go).
 //
 // An edit that gathers a few local variables of a function into a local struct (loop state with a
-// step method, say) does not change behaviour, but go/ssa keeps a struct in memory: its fields are
-// not registers, no phi joins them, and the rules that follow a value through a loop lose sight of
-// it.  After the helpers were inlined, a local variable x of struct type
+// step method, results carried between extracted steps) does not change behaviour, but go/ssa keeps
+// a struct in memory: its fields are not registers, no phi joins them, and the rules that follow a
+// value through a loop lose sight of it.  After the helpers were inlined, the local variables of a
+// struct type T (without embedded fields) of one function that are
 //
-//   - declared `var x T` (or `x := T{}` / `var x = T{}`), T without embedded fields,
-//   - used only as x.f (f a field), or as &x initialising a local pointer p that is itself used only as
-//     p.f, `_ = p`, or to initialise another such pointer,
+//   - declared `var x T`, `var x T = E`, `x := E`, with E another such variable or a literal T{...},
+//   - used only as x.f (f a field), as &x initialising a local pointer p that is itself used only as
+//     p.f, `_ = p`, or to initialise another such pointer, in whole assignments `x = E` / as the E of
+//     another such variable's declaration or assignment, and as `_ = x`,
 //   - and used in no function literal,
 //
-// is replaced by one variable per field.  x is never read, copied or passed as a whole and its address
-// reaches nothing but field selections, so the fields are independent variables: the replacement is
-// semantics-preserving by construction.  The result is type-checked again; on failure it is dropped.
+// are replaced by one variable per field; a whole assignment becomes the parallel assignment of
+// the fields (`x_f, x_g = y_f, y_g`: all right-hand sides are evaluated first, as for the struct
+// copy), a literal contributes its elements in source order and zero values for the rest.  A
+// variable that is read, copied or passed in any other way keeps its struct, and so does every
+// variable it is copied from or to.  The struct value never leaves these variables, so the fields
+// are independent variables: the replacement is semantics-preserving by construction.  The result is
+// type-checked again; on failure it is dropped.
 
 import (
 	"fmt"
@@ -27,13 +33,33 @@ import (
 
 var sraCounter int
 
+type sraVar struct {
+	obj    *types.Var
+	st     *types.Struct
+	prefix string
+	ftypes []string
+	// declaration: node to replace, form
+	declNode ast.Node // DeclStmt, ValueSpec (in a group) or AssignStmt
+	group    bool
+	init     ast.Expr // nil: zero value
+	rejected bool
+	links    []*types.Var // variables it is copied from / to
+	sel      []textEdit   // field selector replacements (own and through pointer aliases)
+	misc     []textEdit   // pointer alias initialisers
+	stmts    []sraStmt    // whole assignments with this variable on the left, blank uses
+}
+
+type sraStmt struct {
+	node ast.Node
+	rhs  ast.Expr // nil: blank use `_ = x`
+}
+
 func sraRound(sp *srcPkg, res *inlineResult) bool {
 	info := sp.info
 	changed := false
 	for _, f := range sp.files {
 		parents := buildParents(f.ast)
 		var edits []textEdit
-		// package qualifier for type texts: packages must be imported by this file under a usable name
 		impName := map[string]string{}
 		for _, is := range f.ast.Imports {
 			path := strings.Trim(is.Path.Value, "\"")
@@ -46,22 +72,67 @@ func sraRound(sp *srcPkg, res *inlineResult) bool {
 				impName[path] = pn.Name()
 			}
 		}
+		typeText := func(t types.Type) (string, bool) {
+			missing := false
+			ts := types.TypeString(t, func(p *types.Package) string {
+				if p == sp.pkg || p.Path() == sp.path {
+					return ""
+				}
+				if n, ok := impName[p.Path()]; ok {
+					return n
+				}
+				missing = true
+				return p.Name()
+			})
+			return ts, !missing
+		}
 		for _, d := range f.ast.Decls {
 			fd, ok := d.(*ast.FuncDecl)
 			if !ok || fd.Body == nil {
 				continue
 			}
-			type cand struct {
-				obj   *types.Var
-				st    *types.Struct
-				node  ast.Node // the DeclStmt / ValueSpec (inside a group) / AssignStmt to replace
-				group bool
+			vars := map[*types.Var]*sraVar{}
+			var order []*sraVar
+			unparenExpr := func(e ast.Expr) ast.Expr {
+				for {
+					p, ok := e.(*ast.ParenExpr)
+					if !ok {
+						return e
+					}
+					e = p.X
+				}
 			}
-			var cands []cand
-			emptyLit := func(e ast.Expr) bool {
-				cl, ok := e.(*ast.CompositeLit)
-				return ok && len(cl.Elts) == 0
+			structOf := func(v *types.Var) *types.Struct {
+				st, ok := v.Type().Underlying().(*types.Struct)
+				if !ok || st.NumFields() == 0 {
+					return nil
+				}
+				for i := 0; i < st.NumFields(); i++ {
+					if st.Field(i).Embedded() || st.Field(i).Name() == "_" {
+						return nil
+					}
+				}
+				return st
 			}
+			addVar := func(obj *types.Var, node ast.Node, group bool, init ast.Expr) {
+				st := structOf(obj)
+				if st == nil || vars[obj] != nil {
+					return
+				}
+				sv := &sraVar{obj: obj, st: st, declNode: node, group: group, init: init}
+				for i := 0; i < st.NumFields(); i++ {
+					ts, ok := typeText(st.Field(i).Type())
+					if !ok {
+						return
+					}
+					sv.ftypes = append(sv.ftypes, ts)
+				}
+				sraCounter++
+				sv.prefix = fmt.Sprintf("sra%d_%s_", sraCounter, obj.Name())
+				vars[obj] = sv
+				order = append(order, sv)
+			}
+			// ---- declarations
 			ast.Inspect(fd.Body, func(n ast.Node) bool {
 				switch x := n.(type) {
 				case *ast.FuncLit:
@@ -73,28 +144,27 @@ func sraRound(sp *srcPkg, res *inlineResult) bool {
 					}
 					for _, s := range gd.Specs {
 						vs := s.(*ast.ValueSpec)
-						if len(vs.Names) != 1 || vs.Names[0].Name == "_" {
-							continue
-						}
-						if !(len(vs.Values) == 0 && vs.Type != nil || len(vs.Values) == 1 && emptyLit(vs.Values[0])) {
+						if len(vs.Names) != 1 || vs.Names[0].Name == "_" || len(vs.Values) > 1 {
 							continue
 						}
 						obj, _ := info.Defs[vs.Names[0]].(*types.Var)
 						if obj == nil {
 							continue
 						}
-						st, ok := obj.Type().Underlying().(*types.Struct)
-						if !ok || st.NumFields() == 0 {
+						var init ast.Expr
+						if len(vs.Values) == 1 {
+							init = vs.Values[0]
+						} else if vs.Type == nil {
 							continue
 						}
 						if gd.Lparen.IsValid() {
-							cands = append(cands, cand{obj, st, vs, true})
+							addVar(obj, vs, true, init)
 						} else if len(gd.Specs) == 1 {
-							cands = append(cands, cand{obj, st, x, false})
+							addVar(obj, x, false, init)
 						}
 					}
 				case *ast.AssignStmt:
-					if x.Tok != token.DEFINE || len(x.Lhs) != 1 || len(x.Rhs) != 1 || !emptyLit(x.Rhs[0]) {
+					if x.Tok != token.DEFINE || len(x.Lhs) != 1 || len(x.Rhs) != 1 {
 						return true
 					}
 					id, ok := x.Lhs[0].(*ast.Ident)
@@ -105,21 +175,60 @@ func sraRound(sp *srcPkg, res *inlineResult) bool {
 					if obj == nil {
 						return true
 					}
-					if _, isStmtList := parents[x].(*ast.BlockStmt); !isStmtList {
-						if _, isCase := parents[x].(*ast.CaseClause); !isCase {
-							return true // an init statement of if/for/switch
-						}
+					switch parents[x].(type) {
+					case *ast.BlockStmt, *ast.CaseClause, *ast.CommClause:
+					default:
+						return true // an init statement of if/for/switch
 					}
-					if st, ok := obj.Type().Underlying().(*types.Struct); ok && st.NumFields() > 0 {
-						cands = append(cands, cand{obj, st, x, false})
-					}
+					addVar(obj, x, false, x.Rhs[0])
 				}
 				return true
 			})
-			if len(cands) == 0 {
+			if len(order) == 0 {
 				continue
 			}
-			// uses of every object in this function
+			// a struct value expression of the family: another variable, or a literal of the type
+			valueOK := func(sv *sraVar, e ast.Expr) bool {
+				e = unparenExpr(e)
+				switch y := e.(type) {
+				case *ast.Ident:
+					o, _ := info.Uses[y].(*types.Var)
+					if o == nil || vars[o] == nil || !types.Identical(o.Type(), sv.obj.Type()) {
+						return false
+					}
+					sv.links = append(sv.links, o)
+					vars[o].links = append(vars[o].links, sv.obj)
+					return true
+				case *ast.CompositeLit:
+					tv, ok := info.Types[y]
+					if !ok || !types.Identical(tv.Type, sv.obj.Type()) {
+						return false
+					}
+					keyed := false
+					for _, el := range y.Elts {
+						if _, isKV := el.(*ast.KeyValueExpr); isKV {
+							keyed = true
+						}
+					}
+					for i, el := range y.Elts {
+						if kv, isKV := el.(*ast.KeyValueExpr); isKV {
+							if _, isId := kv.Key.(*ast.Ident); !isId {
+								return false
+							}
+						} else if keyed || i >= sv.st.NumFields() {
+							return false
+						}
+					}
+					return true
+				}
+				return false
+			}
+			for _, sv := range order {
+				if sv.init != nil && !valueOK(sv, sv.init) {
+					sv.rejected = true
+				}
+			}
+			// ---- uses
 			uses := map[types.Object][]*ast.Ident{}
 			ast.Inspect(fd.Body, func(n ast.Node) bool {
 				if id, ok := n.(*ast.Ident); ok {
@@ -137,7 +246,7 @@ func sraRound(sp *srcPkg, res *inlineResult) bool {
 				}
 				return false
 			}
-			unparen := func(n ast.Node) (ast.Node, ast.Node) { // the node (through parentheses) and its parent
+			unparen := func(n ast.Node) (ast.Node, ast.Node) {
 				for {
 					pp, ok := parents[n].(*ast.ParenExpr)
 					if !ok {
@@ -146,40 +255,10 @@ func sraRound(sp *srcPkg, res *inlineResult) bool {
 					n = pp
 				}
 			}
-		nextCand:
-			for _, c := range cands {
-				st := c.st
-				okFields := true
-				var ftypes []string
-				for i := 0; i < st.NumFields(); i++ {
-					fl := st.Field(i)
-					if fl.Embedded() || fl.Name() == "_" {
-						okFields = false
-						break
-					}
-					missing := false
-					ts := types.TypeString(fl.Type(), func(p *types.Package) string {
-						if p == sp.pkg || p.Path() == sp.path {
-							return ""
-						}
-						if n, ok := impName[p.Path()]; ok {
-							return n
-						}
-						missing = true
-						return p.Name()
-					})
-					if missing {
-						okFields = false
-						break
-					}
-					ftypes = append(ftypes, ts)
-				}
-				if !okFields {
+			for _, sv := range order {
+				if sv.rejected {
 					continue
 				}
-				sraCounter++
-				prefix := fmt.Sprintf("sra%d_%s_", sraCounter, c.obj.Name())
-				var local []textEdit
 				fieldUse := func(id *ast.Ident, ptr bool) bool {
 					n, par := unparen(id)
 					sel, ok := par.(*ast.SelectorExpr)
@@ -190,18 +269,19 @@ func sraRound(sp *srcPkg, res *inlineResult) bool {
 					if sl == nil || sl.Kind() != types.FieldVal || len(sl.Index()) != 1 || sl.Indirect() != ptr {
 						return false
 					}
-					local = append(local, textEdit{sp.off(sel.Pos()), sp.off(sel.End()), prefix + sel.Sel.Name})
+					sv.sel = append(sv.sel, textEdit{sp.off(sel.Pos()), sp.off(sel.End()), sv.prefix + sel.Sel.Name})
 					return true
 				}
-				// aliasInit: expr (through parentheses) is the sole initialiser of a new local pointer variable
 				aliasInit := func(e ast.Node) (*types.Var, bool) {
 					n, par := unparen(e)
 					switch x := par.(type) {
 					case *ast.ValueSpec:
 						if len(x.Names) == 1 && len(x.Values) == 1 && ast.Node(x.Values[0]) == n {
-							if _, inStmt := parents[parents[x]].(*ast.DeclStmt); inStmt {
-								v, _ := info.Defs[x.Names[0]].(*types.Var)
-								return v, v != nil
+							if gd, isGD := parents[x].(*ast.GenDecl); isGD {
+								if _, inStmt := parents[gd].(*ast.DeclStmt); inStmt {
+									v, _ := info.Defs[x.Names[0]].(*types.Var)
+									return v, v != nil
+								}
 							}
 						}
 					case *ast.AssignStmt:
@@ -215,9 +295,10 @@ func sraRound(sp *srcPkg, res *inlineResult) bool {
 					return nil, false
 				}
 				var aliases []*types.Var
-				for _, id := range uses[c.obj] {
+				for _, id := range uses[sv.obj] {
 					if inFuncLit(id) {
-						continue nextCand
+						sv.rejected = true
+						break
 					}
 					if fieldUse(id, false) {
 						continue
@@ -225,24 +306,60 @@ func sraRound(sp *srcPkg, res *inlineResult) bool {
 					n, par := unparen(id)
 					if ue, ok := par.(*ast.UnaryExpr); ok && ue.Op == token.AND && ast.Node(ue.X) == n {
 						if v, ok := aliasInit(ue); ok {
-							aliases = append(aliases, v)
-							// the pointer itself is no longer needed: a typed nil keeps the declaration valid
-							local = append(local, textEdit{sp.off(ue.Pos()), sp.off(ue.End()), "(" + types.TypeString(v.Type(), func(p *types.Package) string {
-								if p == sp.pkg || p.Path() == sp.path {
-									return ""
+							if ts, okT := typeText(v.Type()); okT {
+								aliases = append(aliases, v)
+								sv.misc = append(sv.misc, textEdit{sp.off(ue.Pos()), sp.off(ue.End()), "(" + ts + ")(nil)"})
+								continue
+							}
+						}
+						sv.rejected = true
+						break
+					}
+					switch x := par.(type) {
+					case *ast.AssignStmt:
+						if len(x.Lhs) == 1 && len(x.Rhs) == 1 {
+							// x = E
+							if x.Tok == token.ASSIGN && ast.Node(x.Lhs[0]) == n {
+								if valueOK(sv, x.Rhs[0]) {
+									sv.stmts = append(sv.stmts, sraStmt{x, x.Rhs[0]})
+									continue
 								}
-								if nm, ok := impName[p.Path()]; ok {
-									return nm
+							}
+							// _ = x
+							if x.Tok == token.ASSIGN && ast.Node(x.Rhs[0]) == n {
+								if b, isB := x.Lhs[0].(*ast.Ident); isB && b.Name == "_" {
+									sv.stmts = append(sv.stmts, sraStmt{x, nil})
+									continue
 								}
-								return p.Name()
-							}) + ")(nil)"})
-							continue
+							}
+							// y = x, y := x with y of the family: recorded at y
+							if ast.Node(x.Rhs[0]) == n {
+								if l, isId := x.Lhs[0].(*ast.Ident); isId {
+									var lo types.Object = info.Uses[l]
+									if x.Tok == token.DEFINE {
+										lo = info.Defs[l]
+									}
+									if lv, _ := lo.(*types.Var); lv != nil && vars[lv] != nil {
+										sv.links = append(sv.links, lv)
+										continue
+									}
+								}
+							}
+						}
+					case *ast.ValueSpec:
+						// var y T = x with y of the family: recorded at y
+						if len(x.Names) == 1 && len(x.Values) == 1 && ast.Node(x.Values[0]) == n {
+							if lv, _ := info.Defs[x.Names[0]].(*types.Var); lv != nil && vars[lv] != nil {
+								sv.links = append(sv.links, lv)
+								continue
+							}
 						}
 					}
-					continue nextCand
+					sv.rejected = true
+					break
 				}
 				seenAlias := map[*types.Var]bool{}
-				for len(aliases) > 0 {
+				for len(aliases) > 0 && !sv.rejected {
 					a := aliases[0]
 					aliases = aliases[1:]
 					if seenAlias[a] {
@@ -250,12 +367,14 @@ func sraRound(sp *srcPkg, res *inlineResult) bool {
 					}
 					seenAlias[a] = true
 					pt, ok := a.Type().(*types.Pointer)
-					if !ok || !types.Identical(pt.Elem(), c.obj.Type()) {
-						continue nextCand
+					if !ok || !types.Identical(pt.Elem(), sv.obj.Type()) {
+						sv.rejected = true
+						break
 					}
 					for _, id := range uses[a] {
 						if inFuncLit(id) {
-							continue nextCand
+							sv.rejected = true
+							break
 						}
 						if fieldUse(id, true) {
 							continue
@@ -270,33 +389,151 @@ func sraRound(sp *srcPkg, res *inlineResult) bool {
 							aliases = append(aliases, v)
 							continue
 						}
-						continue nextCand
+						sv.rejected = true
+						break
 					}
 				}
-				// the declaration
+			}
+			// a variable keeps its struct when one it is copied from or to keeps it
+			for again := true; again; {
+				again = false
+				for _, sv := range order {
+					if sv.rejected {
+						continue
+					}
+					for _, l := range sv.links {
+						if vars[l] == nil || vars[l].rejected {
+							sv.rejected = true
+							again = true
+							break
+						}
+					}
+				}
+			}
+			// ---- edits
+			var sel []textEdit
+			for _, sv := range order {
+				if !sv.rejected {
+					sel = append(sel, sv.sel...)
+				}
+			}
+			used := map[int]bool{}
+			// source text of [from,to) with the field selectors inside replaced
+			render := func(from, to token.Pos) string {
+				a, b := sp.off(from), sp.off(to)
+				var in []int
+				for i, e := range sel {
+					if e.start >= a && e.end <= b {
+						in = append(in, i)
+					}
+				}
+				sort.Slice(in, func(i, j int) bool { return sel[in[i]].start > sel[in[j]].start })
+				txt := string(f.src[a:b])
+				for _, i := range in {
+					e := sel[i]
+					txt = txt[:e.start-a] + e.text + txt[e.end-a:]
+					used[i] = true
+				}
+				return txt
+			}
+			// the per-field right-hand sides of a struct value expression, in evaluation order: (field index, text)
+			type part struct {
+				field int
+				text  string
+			}
+			valueParts := func(sv *sraVar, e ast.Expr) []part {
+				e = unparenExpr(e)
+				var out []part
+				switch y := e.(type) {
+				case *ast.Ident:
+					o := info.Uses[y].(*types.Var)
+					for i := 0; i < sv.st.NumFields(); i++ {
+						out = append(out, part{i, vars[o].prefix + sv.st.Field(i).Name()})
+					}
+				case *ast.CompositeLit:
+					have := map[int]bool{}
+					for i, el := range y.Elts {
+						idx := i
+						val := el
+						if kv, isKV := el.(*ast.KeyValueExpr); isKV {
+							val = kv.Value
+							for k := 0; k < sv.st.NumFields(); k++ {
+								if sv.st.Field(k).Name() == kv.Key.(*ast.Ident).Name {
+									idx = k
+								}
+							}
+						}
+						have[idx] = true
+						out = append(out, part{idx, render(val.Pos(), val.End())})
+					}
+					for i := 0; i < sv.st.NumFields(); i++ {
+						if !have[i] {
+							out = append(out, part{i, "*new(" + sv.ftypes[i] + ")"})
+						}
+					}
+				}
+				return out
+			}
+			resync := func(n ast.Node, txt string) string {
+				if strings.Contains(string(f.src[sp.off(n.Pos()):sp.off(n.End())]), "\n") {
+					return txt + sp.lineDirective(n.End())
+				}
+				return txt
+			}
+			var local []textEdit
+			nApplied := 0
+			for _, sv := range order {
+				if sv.rejected {
+					continue
+				}
+				nApplied++
 				var names []string
-				for i := 0; i < st.NumFields(); i++ {
-					names = append(names, prefix+st.Field(i).Name())
+				for i := 0; i < sv.st.NumFields(); i++ {
+					names = append(names, sv.prefix+sv.st.Field(i).Name())
 				}
 				blanks := strings.TrimSuffix(strings.Repeat("_, ", len(names)), ", ")
-				var decl string
-				if c.group {
-					var parts []string
-					for i, n := range names {
-						parts = append(parts, n+" "+ftypes[i])
-					}
-					decl = strings.Join(parts, "; ") + "; " + blanks + " = " + strings.Join(names, ", ")
-				} else {
-					var parts []string
-					for i, n := range names {
-						parts = append(parts, "var "+n+" "+ftypes[i])
-					}
-					decl = strings.Join(parts, "; ") + "; " + blanks + " = " + strings.Join(names, ", ")
+				kw := "var "
+				if sv.group {
+					kw = ""
 				}
-				local = append(local, textEdit{sp.off(c.node.Pos()), sp.off(c.node.End()), decl})
-				edits = append(edits, local...)
-				res.Notes = append(res.Notes, inlineNote{Helper: "scalar replacement of " + c.obj.Name(), Into: fd.Name.Name, At: sp.posStr(c.node.Pos())})
+				var decl []string
+				if sv.init == nil {
+					for i, n := range names {
+						decl = append(decl, kw+n+" "+sv.ftypes[i])
+					}
+				} else {
+					// declared in evaluation order of the initialiser: each right-hand side is evaluated before the next
+					// declaration, and none of them can mention the new variables
+					for _, pt := range valueParts(sv, sv.init) {
+						decl = append(decl, kw+names[pt.field]+" "+sv.ftypes[pt.field]+" = "+pt.text)
+					}
+				}
+				decl = append(decl, blanks+" = "+strings.Join(names, ", "))
+				local = append(local, textEdit{sp.off(sv.declNode.Pos()), sp.off(sv.declNode.End()), resync(sv.declNode, strings.Join(decl, "; "))})
+				for _, st := range sv.stmts {
+					if st.rhs == nil {
+						local = append(local, textEdit{sp.off(st.node.Pos()), sp.off(st.node.End()), blanks + " = " + strings.Join(names, ", ")})
+						continue
+					}
+					var lhs, rhs []string
+					for _, pt := range valueParts(sv, st.rhs) {
+						lhs = append(lhs, names[pt.field])
+						rhs = append(rhs, pt.text)
+					}
+					local = append(local, textEdit{sp.off(st.node.Pos()), sp.off(st.node.End()), resync(st.node, strings.Join(lhs, ", ")+" = "+strings.Join(rhs, ", "))})
+				}
+				local = append(local, sv.misc...)
+				res.Notes = append(res.Notes, inlineNote{Helper: "scalar replacement of " + sv.obj.Name(), Into: fd.Name.Name, At: sp.posStr(sv.declNode.Pos())})
 			}
+			if nApplied == 0 {
+				continue
+			}
+			for i, e := range sel {
+				if !used[i] {
+					local = append(local, e)
+				}
+			}
+			edits = append(edits, local...)
 		}
 		if len(edits) == 0 {
 			continue
@@ -309,6 +546,7 @@ func sraRound(sp *srcPkg, res *inlineResult) bool {
 			}
 		}
 		if !okEdits {
+			res.Skipped = append(res.Skipped, "scalar replacement in "+f.name+": overlapping edits")
 			continue
 		}
 		src := f.src
